@@ -1,15 +1,14 @@
-SPECIFICATION Spec
+SPECIFICATION PivotSpec
 CONSTANTS
   Agents = {"a1", "a2"}
   Limit = 31457280
   Chunk = 31457280
   ChunkOverhead = 16
   OpSize = 8
-  WrapOverhead = 0
+  WrapOverhead = 32
   UseSize = 32
   RawSizes = {15728640, 31457279, 31457280}
   FileSizes = {0, 1, 31457280, 31457281}
-  MaxOps = 6
-VIEW view
-INVARIANTS TypeOK ExactlyOnceInOrder NoJobOnlyIfEmpty Bounded NonEmptyBatch Maximal ChunksPrecedeUse ChunkLensSumToFile
+  MaxOps = 8
+INVARIANTS Emit
 CHECK_DEADLOCK FALSE
